@@ -7,9 +7,9 @@ META = {
  'C01': ('round-trip PBT (Hypothesis): generated message specs -> port of wl_closure_print (both dialects) -> parse.message; must-reject for generated non-message lines',
          'Generated-input search against the spec as oracle; both directions (nothing dropped/split/merged/re-typed, non-messages rejected).',
          'wire.py is a faithful port of libwayland wl_closure_print; strings exclude double quote and backslash.'),
- 'C02': ('model-based stateful PBT (Hypothesis RuleBasedStateMachine): well-formed multi-connection histories vs reference object-table model after every step',
+ 'C02': ('model-based stateful PBT (Hypothesis RuleBasedStateMachine): multi-connection histories (incl. logs that start mid-session) vs reference object-table model after every step; the same through the real GDB plugin on a gdb stand-in; metamorphic fresh-process run (filtered vs full display)',
          'Every mention is compared with an independent ~80-line model of incarnations after each step, including a full scan of the object table.',
-         'Well-formedness as constructed by histgen (client ids reused only after delete_id); reference model of DESIGN appendix B.'),
+         'Well-formedness as constructed by histgen (client ids reused only after delete_id; objects never seen created stay unresolved, what they create exists); reference model of DESIGN appendix B.'),
  'C03': ('model-based stateful PBT (Hypothesis RuleBasedStateMachine): lifetimes/alive sets/lifespans vs reference model; monotone-death invariant',
          'Alive sets, destroyed annotations and lifespans are compared with the model after every step on client- and server-side logs.',
          'Non-decreasing timestamps without 32-bit wrap-around; lifespans compared in exact integer microseconds +-1 in the last printed digit.'),
@@ -25,7 +25,7 @@ META = {
  'C07': ('exhaustive enumeration of shipped protocol lookups + PBT over synthetic multi-version XML sets in every load order vs independent XML reader',
          'All shipped interfaces x messages x argument positions and enum decodes are enumerated; version precedence is searched over generated XML.',
          'protoxml.py (own ElementTree reader) is the oracle; ties at equal maximal version accept any one description.'),
- 'C08': ('PBT over generated streams with chatter: line-by-line conservation, keeps-pace via read hook, prefix law at every truncation offset',
+ 'C08': ('PBT over generated streams with chatter: line-by-line conservation, keeps-pace via read hook, prefix law at every truncation offset; line-count conservation of real main.py runs under generated option combinations',
          'Output items are matched one-to-one with input lines; output length is sampled at every readline() call; every truncation is re-run.',
          'Chatter contains no timestamp-shaped token (so it denotes no message by an independent definition).'),
  'C09': ('differential PBT: generated closures through a symbolic gdb stand-in vs the spec, and vs log mode on libwayland\'s print-out of the same closure',
@@ -40,24 +40,24 @@ META = {
  'C12': ('model-based PBT: sequences of filter/breakpoint commands vs accumulator model over atoms, evaluated on a message universe after every step',
          'An independent accumulator (alternatives, exclusions, star flag) predicts selection for every message after every command.',
          'Outcomes the statement leaves open (alternatives absorbed by *) are skipped and counted.'),
- 'C13': ('differential PBT over real subprocesses: file vs pipe vs run mode, chunkings/delays, exit status, child argv/env report',
+ 'C13': ('differential PBT over real subprocesses: file vs pipe vs run mode, chunkings/delays (also a slow producer on the pipe), per-process hash seeds, undecodable bytes, -b/--supress, exit status, child argv/env report',
          'main.py is run three ways on the same generated stream; outputs, child report and exit status are compared.',
-         'Chunkings and delays are sampled on a real pipe; kernel scheduling is not enumerated. LC_ALL=C.UTF-8.'),
- 'C14': ('exhaustive enumeration of letter ids through four letters + PBT: every label of generated histories used as a matcher vs model mention sets',
+         'Chunkings and delays are sampled on a real pipe; kernel scheduling is not enumerated. LC_ALL=C.UTF-8 (the only kind of locale in the sandbox).'),
+ 'C14': ('exhaustive enumeration of letter ids through four letters + PBT: every label of generated histories used as a matcher vs model mention sets, also inside scripted sessions (selection changes, labels given to filter/breakpoint before)',
          'Bijection/shortlex order enumerated for 475254 indexes; labels-as-matchers compared with the model in both inclusions.',
          'Reference model of DESIGN appendix B.'),
  'C15': ('model-based stateful PBT (RuleBasedStateMachine) on the GDB plugin with the gdb stand-in: messages/destroys on several addresses and threads',
          'Connection open/close/reuse compared with a model after every step; any exception out of stop() is a violation.',
          'fakegdb stand-in (cross-checked with real gdb on a mock in the thorough tier).'),
- 'C16': ('metamorphic PBT (constant time shift) + exact microsecond arithmetic oracle for time column and separators',
+ 'C16': ('metamorphic PBT (constant time shift) + exact microsecond arithmetic oracle for time column and separators, in log sessions and on the connection-id interface (connections closing and opening over time)',
          'Displayed times and separators are recomputed in exact integer microseconds; shifted logs must display the same.',
-         'The exactly-one-second gap is undetermined in binary floating point and skipped; +-1 in the last printed digit is the statement\'s tolerance.'),
- 'C17': ('metamorphic PBT: same session under both colour settings (strip-equality), coloured paste-back vs plain text',
+         'The exactly-one-second gap is undetermined in binary floating point and skipped unless every time of the log is a whole number of seconds (exact arithmetic); +-1 in the last printed digit is the statement\'s tolerance.'),
+ 'C17': ('metamorphic PBT: same session under both colour settings (strip-equality), coloured paste-back vs plain text, main.py\'s own texts under --color / -C / both from fresh processes',
          'Every session is run twice; stripped coloured output must equal plain output character for character.',
          'Escape sequences are those the tool itself emits (SGR).'),
  'C18': ('totality PBT + coverage-guided fuzzing (atheris) + subprocess byte fuzzing: only documented rejection channels may be used',
          'Mutated and arbitrary lines/matchers/commands/bytes are thrown at the four entry points; any escaping exception or traceback is a violation.',
-         'A slow input is inconclusive, never a violation. LC_ALL=C.UTF-8.'),
+         'A slow input is inconclusive, never a violation. LC_ALL=C.UTF-8; strictly decoding standard streams (as under an ordinary UTF-8 locale) are reproduced with PYTHONIOENCODING.'),
  'C19': ('differential PBT: generated argument vectors vs reference splitter; argv observed by the child / by Python inside real gdb via a shim',
          'parse_args is compared with an own left-to-right splitter; forwarded words are observed from the receiving side.',
          'Option values are separate words not starting with "-" (the statement\'s domain).'),
